@@ -19,6 +19,8 @@ SEMANTIC = [
     ('invariant not satisfied before loop', 'inv-entry'),
     ('loop invariant not satisfied', 'inv-break'),
     ('precondition not met', 'pre'),
+    ('unable to prove post-condition of closure', 'post'),
+    ('unable to prove assertion', 'assert'),
     ('possible arithmetic underflow/overflow', 'arith'),
     ('possible division by zero', 'div0'),
     ('decreases not satisfied', 'term'),
